@@ -93,6 +93,15 @@ RAddrVecs ==
   \o Cross2(Secs, << 0, 999999, 1000000, 999999999 >>, LAMBDA s, ns :
      One(B("NewRouterAddress", [cost |-> 5, exp |-> PadTo(s, 8), expneg |-> FALSE, expns |-> ns, style |-> << 83, 83, 85, 50 >>, pairs |-> MapSets[3]], "raddr-exp")))
 
+\* strings whose length in CHARACTERS is within the limit while their length in BYTES is at or over it (valid UTF-8, 2- and 3-byte sequences):
+\* the length byte counts bytes
+RepSeq(u, n) == IF n = 0 THEN << >> ELSE [i \in 1..(n * Len(u)) |-> u[((i - 1) % Len(u)) + 1]]
+UStrs == << RepSeq(<< 195, 169 >>, 127) \o << 97 >>, RepSeq(<< 195, 169 >>, 128), RepSeq(<< 195, 169 >>, 200), RepSeq(<< 226, 130, 172 >>, 85), RepSeq(<< 226, 130, 172 >>, 86), RepSeq(<< 240, 159, 153, 130 >>, 64) >>
+RAddrUVecs ==
+  SeqMap(LAMBDA u : One(B("NewRouterAddress", [cost |-> 5, exp |-> << >>, expneg |-> FALSE, expns |-> 0, style |-> u, pairs |-> MapSets[3]], "raddr-utf8-style")), UStrs)
+  \o SeqMap(LAMBDA u : One(B("NewRouterAddress", [cost |-> 5, exp |-> << >>, expneg |-> FALSE, expns |-> 0, style |-> << 83, 83, 85, 50 >>, pairs |-> << << KeyA, u >> >>], "raddr-utf8-value")), UStrs)
+  \o SeqMap(LAMBDA u : One(B("NewRouterAddress", [cost |-> 5, exp |-> << >>, expneg |-> FALSE, expns |-> 0, style |-> << 83, 83, 85, 50 >>, pairs |-> << << u, ValX >>, << KeyB, ValX >> >>], "raddr-utf8-key")), UStrs)
+
 \* "host" values in every spelling of an IP literal (uncompressed, upper case, IPv4-mapped, zone, leading zeros) and a name: an option value is
 \* a string, and the constructor stores the string it was given
 HostSpellings == << << 50, 48, 48, 49, 58, 100, 98, 56, 58, 48, 58, 48, 58, 48, 58, 48, 58, 48, 58, 49 >>, << 50, 48, 48, 49, 58, 68, 66, 56, 58, 58, 49 >>, << 58, 58, 102, 102, 102, 102, 58, 49, 57, 50, 46, 48, 46, 50, 46, 49 >>, << 48, 58, 48, 58, 48, 58, 48, 58, 48, 58, 48, 58, 48, 58, 49 >>, << 50, 48, 48, 49, 58, 100, 98, 56, 58, 58, 49 >>, << 102, 101, 56, 48, 58, 58, 49, 37, 101, 116, 104, 48 >>, << 101, 120, 97, 109, 112, 108, 101, 46, 105, 50, 112 >>, << 49, 46, 50, 46, 51, 46, 52 >>, << 58, 58, 70, 70, 70, 70, 58, 49, 46, 50, 46, 51, 46, 52 >>, << 50, 48, 48, 49, 58, 48, 100, 98, 56, 58, 48, 48, 48, 48, 58, 48, 48, 48, 48, 58, 48, 48, 48, 48, 58, 48, 48, 48, 48, 58, 48, 48, 48, 48, 58, 48, 48, 48, 49 >> >>
@@ -184,6 +193,8 @@ MappingVecs ==
   \* string limit: 255 accepted, 256 rejected
   \o Cross2(MapFns, << 255, 256 >>, LAMBDA fn, n : BM(fn, << << Str(n, 1), ValX >> >>, 2, "keylen" \o ToString(n)))
   \o Cross2(MapFns, << 255, 256 >>, LAMBDA fn, n : BM(fn, << << KeyA, Str(n, 1) >> >>, 2, "vallen" \o ToString(n)))
+  \o Cross2(MapFns, UStrs, LAMBDA fn, u : BM(fn, << << u, ValX >>, << KeyB, ValX >> >>, 2, "utf8key" \o ToString(Len(u))))
+  \o Cross2(MapFns, UStrs, LAMBDA fn, u : BM(fn, << << KeyA, u >>, << KeyB, ValX >> >>, 2, "utf8val" \o ToString(Len(u))))
   \* total size: 127 pairs of 514 bytes = 65278, plus one pair of 4 + 2 + v
   \o Cross2(MapFns, << 250, 251, 252 >>, LAMBDA fn, v : BM(fn, NPairs(127, 255, 255) \o << << << 255, 255 >>, Str(v, 3) >> >>, 2, "total" \o ToString(65278 + 6 + v)))
   \* serialisations kept while other mappings are serialised
@@ -196,7 +207,7 @@ MappingVecs ==
 \* more; the event carries the second result (results are fresh: what a caller does to one result never shows in a later one)
 AgainOps(ops) == SeqMap(LAMBDA o : IF o.op = "Build" THEN o @@ [again |-> TRUE] ELSE o, ops)
 Again(vs) == vs \o SeqMap(LAMBDA v : [ops |-> AgainOps(v.ops)], SelectSeq(vs, LAMBDA v : \E i \in 1..Len(v.ops) : v.ops[i].op = "Build"))
-Vecs0 == CASE Fam = "cert" -> CertVecs [] Fam = "keycert" -> KeyCertVecs [] Fam = "ident" -> IdentVecs \o IdentVecs2 [] Fam = "raddr" -> RAddrVecs \o RAddrHostVecs
+Vecs0 == CASE Fam = "cert" -> CertVecs [] Fam = "keycert" -> KeyCertVecs [] Fam = "ident" -> IdentVecs \o IdentVecs2 [] Fam = "raddr" -> RAddrVecs \o RAddrHostVecs \o RAddrUVecs
           [] Fam = "lease" -> LeaseVecs [] Fam = "offsig" -> OffVecs [] Fam = "ls2" -> LS2Vecs [] Fam = "mapping" -> MappingVecs
           [] OTHER -> CertVecs \o KeyCertVecs \o IdentVecs \o IdentVecs2 \o RAddrVecs \o LeaseVecs \o OffVecs \o LS2Vecs \o MappingVecs
 Vecs == Again(Vecs0)
